@@ -6,11 +6,12 @@ sys.path.insert(0, os.path.join(VERIF, 'engine'))
 import driver
 props = [json.loads(l)['id'] for l in open(os.path.join(VERIF, 'properties.jsonl'))]
 na = json.load(open(os.path.join(VERIF, 'props', 'not_applicable.json')))
+ready = set(open(os.path.join(VERIF, 'props', 'claimed.txt')).read().split())
 checks = []
 claimed = set()
 for pid in props:
     p = os.path.join(VERIF, 'props', pid + '.py')
-    if not os.path.exists(p): continue
+    if not os.path.exists(p) or pid not in ready: continue
     m = driver.load_prop(pid)
     meta = m.META
     if meta.get('claimed', True) is False: continue
